@@ -371,6 +371,136 @@ impl FixtureDatabase {
 @before fixture_decorator 1
     let ghost ub = uu;
     proof { assert(ub == ua + decos_uses(ds, ds.len() as int, 1, f, li)); }
+@after fixture_decorator 1
+    proof {
+        let sr = ds.as_ref();
+        match fixture_decorator {
+            Some(d) => {
+                assert(exists|k: int| 0 <= k < sr.len() && sr[k] == d && spec_is_fixture_decorator(sr[k])
+                    && forall|j: int| 0 <= j < k ==> !spec_is_fixture_decorator(#[trigger] sr[j]));
+                let k = choose|k: int| 0 <= k < sr.len() && sr[k] == d && spec_is_fixture_decorator(sr[k])
+                    && forall|j: int| 0 <= j < k ==> !spec_is_fixture_decorator(#[trigger] sr[j]);
+                assert forall|j: int| 0 <= j < k implies !spec_is_fixture_decorator(&#[trigger] ds[j]) by { let y = sr[j]; }
+                lemma_first_fix_at(ds, 0, k);
+                assert(*d == ds[first_fix(ds, 0)->0]);
+            }
+            None => {
+                assert(forall|j: int| 0 <= j < sr.len() ==> !spec_is_fixture_decorator(#[trigger] sr[j]));
+                assert forall|j: int| 0 <= j < ds.len() implies !spec_is_fixture_decorator(&#[trigger] ds[j]) by { let y = sr[j]; }
+                lemma_first_fix_none(ds, 0);
+            }
+        }
+        assert(ub + Seq::<UseV>::empty() =~= ub);
+    }
+@before extract_fixture_name_from_decorator 1
+    let ghost kd = first_fix(ds, 0)->0;
+    proof {
+        assert(first_fix(ds, 0) is Some && *decorator == ds[kd]);
+        assert forall|o: Option<Seq<char>>| #[trigger] kw_post(decorator, kw_str_fn("name"@), o) implies o == spec_kw(decorator, kw_str_fn("name"@)) by {
+            lemma_kw_post(decorator, kw_str_fn("name"@), o);
+        }
+        assert forall|o: Option<FixtureScope>| #[trigger] kw_post(decorator, kw_scope_fn(), o) implies o == spec_kw(decorator, kw_scope_fn()) by {
+            lemma_kw_post(decorator, kw_scope_fn(), o);
+        }
+    }
+@after extract_fixture_name_from_decorator 1
+    proof { assert(fixture_name@ == opt_or_else(spec_kw(decorator, kw_str_fn("name"@)), func_name@)); }
+@after extract_fixture_scope 1
+    proof { assert(scope == opt_or_else(spec_kw(decorator, kw_scope_fn()), FixtureScope::Function)); }
+@after extract_fixture_autouse 1
+    proof { lemma_autouse_post(decorator, autouse); }
+@before for 8
+    let ghost base1 = Set::<Seq<char>>::empty().insert("self"@).insert("request"@).insert(func_name@);
+    proof { assert(declared_params.s() =~= base1); assert(strs_v(dependencies@) =~= Seq::<Seq<char>>::empty()); }
+@loopvar 8 it8
+@loop 8
+    invariant aps == all_params(**args), it8.seq() == aps.as_ref(),
+        strs_v(dependencies@) == deps_of(aps, it8.index@ as int),
+        declared_params.s() == declared_of(aps, it8.index@ as int, base1),
+@loopstart 8
+    let ghost n = it8.index@ as int;
+    proof { assert(*arg == aps[n]); }
+@loopend 8
+    proof { assert(strs_v(dependencies@) =~= deps_of(aps, n + 1)); }
+@before record_fixture_definition 1
+    let ghost s1 = *self;
+    let ghost x = dv(&definition);
+    proof {
+        assert(x.dependencies =~= deps_of(aps, aps.len() as int));
+        assert(x == fixture_def(fv, ds[kd], f, src, li));
+    }
+@after record_fixture_definition 1
+    proof {
+        lemma_rec_def(*old(self), s1, *self, du, uu, x, f);
+        du = du.push(x);
+        assert(du =~= func_defs(fv, f, src, li));
+    }
+@before for 9
+    let ghost ud = uu;
+    proof { assert(ud == ub); assert(ud + Seq::<UseV>::empty() =~= ud); }
+@loopvar 9 it9
+@loop 9
+    invariant f == pbv(file_path), li == line_index@, is_line_index(ints(li)),
+        aps == all_params(**args), it9.seq() == aps.as_ref(),
+        uu == ud + param_uses(aps, it9.index@ as int, true, f, li),
+        rec_rel(*old(self), *self, du, uu, f),
+@loopstart 9
+    let ghost n = it9.index@ as int;
+    proof { assert(*arg == aps[n]); }
+@before record_fixture_usage 4
+    let ghost s1 = *self;
+    let ghost x = param_use(aps[n], f, li);
+@after record_fixture_usage 4
+    proof {
+        lemma_rec_use(*old(self), s1, *self, du, uu, x, f);
+        assert((ud + param_uses(aps, n, true, f, li)).push(x) =~= ud + param_uses(aps, n + 1, true, f, li));
+        uu = uu.push(x);
+    }
+@before scan_function_body_for_undeclared_fixtures 1
+    let ghost s1 = *self;
+    proof { assert(declared_params.s() == declared_fixture(fv.name, fv.args)); }
+@after scan_function_body_for_undeclared_fixtures 1
+    proof { lemma_rec_undecl(*old(self), s1, *self, du, uu, f); }
+@before is_test 1
+    let ghost ue = uu;
+    proof {
+        assert(du =~= func_defs(fv, f, src, li));
+        assert(ue == ub + (if first_fix(ds, 0) is Some { param_uses(aps, aps.len() as int, true, f, li) } else { Seq::<UseV>::empty() }));
+        assert(ue + Seq::<UseV>::empty() =~= ue);
+    }
+@before for 10
+    let ghost base2 = Set::<Seq<char>>::empty().insert("self"@).insert("request"@);
+    proof { assert(declared_params.s() =~= base2); }
+@loopvar 10 it10
+@loop 10
+    invariant f == pbv(file_path), li == line_index@, is_line_index(ints(li)),
+        aps == all_params(**args), it10.seq() == aps.as_ref(),
+        declared_params.s() == declared_of(aps, it10.index@ as int, base2),
+        uu == ue + param_uses(aps, it10.index@ as int, false, f, li),
+        rec_rel(*old(self), *self, du, uu, f),
+@loopstart 10
+    let ghost n = it10.index@ as int;
+    proof { assert(*arg == aps[n]); }
+@before record_fixture_usage 5
+    let ghost s1 = *self;
+    let ghost x = param_use(aps[n], f, li);
+@after record_fixture_usage 5
+    proof {
+        lemma_rec_use(*old(self), s1, *self, du, uu, x, f);
+        assert((ue + param_uses(aps, n, false, f, li)).push(x) =~= ue + param_uses(aps, n + 1, false, f, li));
+        uu = uu.push(x);
+    }
+@before scan_function_body_for_undeclared_fixtures 2
+    let ghost s1 = *self;
+    proof { assert(declared_params.s() == declared_test(fv.args)); }
+@after scan_function_body_for_undeclared_fixtures 2
+    proof { lemma_rec_undecl(*old(self), s1, *self, du, uu, f); }
+@end
+    proof {
+        assert(du =~= visit_defs(*stmt, f, src, li));
+        assert(uu == func_uses(fv, f, li));
+        reveal(rec_rel);
+    }
 @*/
 
 /*@ extract src/fixtures/analyzer.rs visit_assignment_fixture
